@@ -1287,6 +1287,13 @@ func (e *Env) compByName(name string) string {
 			return ""
 		}
 		return vc.globalComp(p.Path(), n, obj.Type())
+	case strings.HasPrefix(name, "[]"):
+		// heap([]T): the contents of every backing array of element type T
+		t := e.resolveType(name[2:])
+		if t == nil {
+			return ""
+		}
+		return vc.arrHeap(t)
 	case name == "Held":
 		vc.regComp("Held", "(Array Int Int)")
 		return "Held"
